@@ -397,9 +397,31 @@ func propOpTable(c *Ctx) {
 	}
 	appended := map[int64]int{} // opcode -> bytes appended after the opcode byte
 	hasDefault := false
-	widthCases := func(fd *ast.FuncDecl) map[int64]bool {
+	var widthCasesD func(fd *ast.FuncDecl, depth int) map[int64]bool
+	widthCases := func(fd *ast.FuncDecl) map[int64]bool { return widthCasesD(fd, 0) }
+	widthCasesD = func(fd *ast.FuncDecl, depth int) map[int64]bool {
 		out := map[int64]bool{}
 		ast.Inspect(fd.Body, func(n ast.Node) bool {
+			// the width switch may live in a helper called from here
+			if call, ok := n.(*ast.CallExpr); ok && depth < 2 {
+				var id *ast.Ident
+				switch f := ast.Unparen(call.Fun).(type) {
+				case *ast.Ident:
+					id = f
+				case *ast.SelectorExpr:
+					id = f.Sel
+				}
+				if id != nil {
+					if fo, ok := info.Uses[id].(*types.Func); ok && fo.Pkg() == p.Types {
+						if hd := l.Decl(fo); hd != nil && hd != fd && hd.Body != nil {
+							for k := range widthCasesD(hd, depth+1) {
+								out[k] = true
+							}
+						}
+					}
+				}
+				return true
+			}
 			sw, ok := n.(*ast.SwitchStmt)
 			if !ok || sw.Tag == nil {
 				return true
